@@ -21,6 +21,7 @@ import ClarabelProofs.Lemmas.QdldlNewZeroPivot
 import ClarabelProofs.Lemmas.QdldlLogical
 import ClarabelProofs.Lemmas.QdldlHistory
 import ClarabelProofs.Lemmas.QdldlHistoryMain
+import ClarabelProofs.Lemmas.QdldlEmpty
 import ClarabelProofs.Lemmas.ScalarInst
 import Mathlib.Algebra.Order.Field.Basic
 
@@ -832,7 +833,8 @@ end factor_field
 The theorems above are about `_factor_inner` on a `triuA` that `Represents` a dense matrix.  Here the
 hypothesis is discharged from the user's input: `A` in valid CSC format (`wellFormed`), accepted by
 `check_structure`, canonical (`NoDupCols`: no column stores a row index twice — what
-`CscMatrix::check_format` demands), `perm` a permutation of `0 … n-1`, `n > 0`.
+`CscMatrix::check_format` demands), `perm` a permutation of `0 … n-1` (`n = 0` included since the repair 6c94e42, see `empty_matrix_ok`;
+only `history_refactor_eq_fresh` keeps `0 < n`).
 `symOf A i j = A[min i j, max i j]` is the symmetric matrix whose upper triangle `A` stores and
 `signAt dsigns perm r = Dsigns[perm r]` (default `+1`). -/
 
@@ -875,19 +877,19 @@ another error.  For the object `F` (with `L = denseL F.L`, unit diagonal implied
 off); `d[r] ≠ 0`, `Dinv = 1/d`, `positive_inertia` = number of positive `d`, `regularize_count` =
 number of rows on which the rule fired. -/
 theorem new_factor_correct (A : Csc α) (hw : wellFormed A = true) (hc : checkStructure A = .ok ())
-    (hnd : NoDupCols A.colptr A.rowval) (hn : 0 < A.n) (perm : Array Nat) (hp : IsPerm perm)
+    (hnd : NoDupCols A.colptr A.rowval) (perm : Array Nat) (hp : IsPerm perm)
     (hps : perm.size = A.n) (dsigns : Option (Array Int))
     (hds : ∀ ds, dsigns = some ds → A.n ≤ ds.size) (enable : Bool) (eps delta : α) :
     (new A perm dsigns enable eps delta false = .error errZeroPivot ∨
       ∃ F, new A perm dsigns enable eps delta false = .ok F) ∧
     ∀ F, new A perm dsigns enable eps delta false = .ok F → NewSpec A perm dsigns enable eps delta F := by
   obtain ⟨iperm, hip⟩ := (invperm_ok_iff perm).mpr hp
-  exact new_correct A hw hc hnd hn perm iperm hip hps dsigns hds enable eps delta
+  exact new_correct' A hw hc hnd perm iperm hip hps dsigns hds enable eps delta
 
 /-- [F] regularisation off: the equations of `new_factor_correct` are the matrix identity
 `(I+L)·D·(I+L)ᵀ = Π·Sym(A)·Πᵀ` (entry `(i,j)` of the right-hand side is `Sym(A)[perm i, perm j]`). -/
 theorem new_factor_correct_unregularized (A : Csc α) (hw : wellFormed A = true)
-    (hc : checkStructure A = .ok ()) (hnd : NoDupCols A.colptr A.rowval) (hn : 0 < A.n)
+    (hc : checkStructure A = .ok ()) (hnd : NoDupCols A.colptr A.rowval)
     (perm : Array Nat) (hp : IsPerm perm) (hps : perm.size = A.n) (dsigns : Option (Array Int))
     (hds : ∀ ds, dsigns = some ds → A.n ≤ ds.size) (eps delta : α) (F : Factorisation α)
     (hF : new A perm dsigns false eps delta false = .ok F) :
@@ -896,7 +898,7 @@ theorem new_factor_correct_unregularized (A : Csc α) (hw : wellFormed A = true)
         (1 + Matrix.of fun (i j : Fin A.n) => denseL F.L.colptr F.L.rowval F.L.nzval i j)ᵀ :
           Matrix (Fin A.n) (Fin A.n) α) =
       Matrix.of fun i j : Fin A.n => symOf A (perm.getD i.val 0) (perm.getD j.val 0) := by
-  have hS := (new_factor_correct A hw hc hnd hn perm hp hps dsigns hds false eps delta).2 F hF
+  have hS := (new_factor_correct A hw hc hnd perm hp hps dsigns hds false eps delta).2 F hF
   ext i j
   have := ldl_matrix_form A.n (denseL F.L.colptr F.L.rowval F.L.nzval) (fun j => F.D.getD j 0)
     (fun c r => symOf A (perm.getD c 0) (perm.getD r 0))
@@ -917,7 +919,7 @@ factorisation object `F`, then `solve F b` (permute, `_lsolve`, `_dltsolve`, `ip
 arrays, with all their indexed reads and writes) does not fail and returns `x` with
 `Sym(A)·x = b`. -/
 theorem new_solve_correct (A : Csc α) (hw : wellFormed A = true) (hc : checkStructure A = .ok ())
-    (hnd : NoDupCols A.colptr A.rowval) (hn : 0 < A.n) (perm : Array Nat) (hp : IsPerm perm)
+    (hnd : NoDupCols A.colptr A.rowval) (perm : Array Nat) (hp : IsPerm perm)
     (hps : perm.size = A.n) (dsigns : Option (Array Int))
     (hds : ∀ ds, dsigns = some ds → A.n ≤ ds.size) (eps delta : α) (F : Factorisation α)
     (hF : new A perm dsigns false eps delta false = .ok F) (b : Array α) (hb : b.size = A.n) :
@@ -925,7 +927,7 @@ theorem new_solve_correct (A : Csc α) (hw : wellFormed A = true) (hc : checkStr
       Matrix.mulVec (Matrix.of fun i j : Fin A.n => symOf A i.val j.val) (fun j => x.getD j.val 0) =
         fun i => b.getD i.val 0 := by
   obtain ⟨iperm, hip⟩ := (invperm_ok_iff perm).mpr hp
-  exact new_solve A hw hc hnd hn perm iperm hip hps dsigns hds eps delta F hF b hb
+  exact new_solve' A hw hc hnd perm iperm hip hps dsigns hds eps delta F hF b hb
 
 /-- non-vacuity of the hypotheses on the user's input (`permute_symmetric_represents`,
 `new_factor_correct`, `new_solve_correct`, …): the matrix `[[4,1],[1,3]]` with the reversed
@@ -995,7 +997,7 @@ theorem zero_pivot_iff (n : Nat) (hn : 0 < n) (Ap Ai : Array Nat) (hA : TriuCsc 
 exact elimination of `Π·Sym(A)·Πᵀ` (`permSym A perm i k = Sym(A)[perm i, perm k]`) is zero;
 otherwise it returns `Ok`, and the `D` of the returned object is the vector of exact pivots. -/
 theorem new_zero_pivot_iff (A : Csc α) (hw : wellFormed A = true) (hc : checkStructure A = .ok ())
-    (hnd : NoDupCols A.colptr A.rowval) (hn : 0 < A.n) (perm : Array Nat) (hp : IsPerm perm)
+    (hnd : NoDupCols A.colptr A.rowval) (perm : Array Nat) (hp : IsPerm perm)
     (hps : perm.size = A.n) (dsigns : Option (Array Int))
     (hds : ∀ ds, dsigns = some ds → A.n ≤ ds.size) (eps delta : α) :
     (new A perm dsigns false eps delta false = .error errZeroPivot ↔
@@ -1005,7 +1007,7 @@ theorem new_zero_pivot_iff (A : Csc α) (hw : wellFormed A = true) (hc : checkSt
     (∀ F, new A perm dsigns false eps delta false = .ok F →
       ∀ k, k < A.n → F.D.getD k 0 = refPivot (permSym A perm) k ∧ refPivot (permSym A perm) k ≠ 0) := by
   obtain ⟨iperm, hip⟩ := (invperm_ok_iff perm).mpr hp
-  exact new_zeroPivot_iff A hw hc hnd hn perm iperm hip hps dsigns hds eps delta
+  exact new_zeroPivot_iff' A hw hc hnd perm iperm hip hps dsigns hds eps delta
 
 end new_end_to_end
 
@@ -1048,7 +1050,7 @@ user's input only: the call succeeds (no error, no panic) and returns an object 
 `L.colptr = cumsum Lnz`, `L.rowval` = the symbolic pattern, `L.nzval` and `Dinv` all `1`,
 `D[0] = 0`, `D[k] = triuA[k,k]` (`k ≥ 1`), inertia and regularisation count `0`. -/
 theorem new_logical_correct (A : Csc α) (hw : wellFormed A = true) (hc : checkStructure A = .ok ())
-    (hnd : NoDupCols A.colptr A.rowval) (hn : 0 < A.n) (perm : Array Nat) (hp : IsPerm perm)
+    (hnd : NoDupCols A.colptr A.rowval) (perm : Array Nat) (hp : IsPerm perm)
     (hps : perm.size = A.n) (dsigns : Option (Array Int))
     (hds : ∀ ds, dsigns = some ds → A.n ≤ ds.size) (enable : Bool) (eps delta : α) :
     ∃ F iperm P map es, new A perm dsigns enable eps delta true = .ok F ∧
@@ -1062,11 +1064,20 @@ theorem new_logical_correct (A : Csc α) (hw : wellFormed A = true) (hc : checkS
       F.Dinv = Array.replicate A.n 1 ∧ F.D.size = A.n ∧
       (∀ c, c < A.n → F.D.getD c 0 = if c = 0 then 0 else denseOf P.colptr P.rowval P.nzval c c) ∧
       F.positiveInertia = 0 ∧ F.regularizeCount = 0 := by
-  obtain ⟨iperm, hip⟩ := (invperm_ok_iff perm).mpr hp
-  obtain ⟨P, map, Ds, es, S⟩ := stages_of A hw hc hnd hn perm iperm hip hps dsigns hds
-  obtain ⟨F, h0, h1, h2, h3, h4, h5, h6, h7, h8, h9, h10, h11, h12, h13, h14, _⟩ :=
-    new_logical S enable eps delta
-  exact ⟨F, iperm, P, map, es, h0, hip, S.ps, S.et, h1, h2, h3, h4, h5, h6, h7, h8, h9, h10, h11, h12, h13, h14⟩
+  by_cases hn : 0 < A.n
+  · obtain ⟨iperm, hip⟩ := (invperm_ok_iff perm).mpr hp
+    obtain ⟨P, map, Ds, es, S⟩ := stages_of A hw hc hnd hn perm iperm hip hps dsigns hds
+    obtain ⟨F, h0, h1, h2, h3, h4, h5, h6, h7, h8, h9, h10, h11, h12, h13, h14, _⟩ :=
+      new_logical S enable eps delta
+    exact ⟨F, iperm, P, map, es, h0, hip, S.ps, S.et, h1, h2, h3, h4, h5, h6, h7, h8, h9, h10, h11, h12, h13, h14⟩
+  · have h0 : A.n = 0 := by omega
+    have hA := eq_empty_of_n0 A hw hc h0
+    have hpe : perm = #[] := array_eq_empty perm (by rw [hps, h0])
+    subst hA hpe
+    exact ⟨emptyF enable eps delta true, #[], emptyCsc α, #[], ⟨#[], #[], #[]⟩,
+      new_empty dsigns enable eps delta true, rfl, rfl, rfl, rfl, rfl, rfl, rfl, rfl, rfl, rfl,
+      fun c hc => absurd hc (Nat.not_lt_zero c), rfl, rfl, rfl,
+      fun c hc => absurd hc (Nat.not_lt_zero c), rfl, rfl⟩
 
 /-- [S] (holds at `Float`: bit-identical) **`refactor` after an arbitrary history = factoring the
 updated matrix from scratch.**  Let `F0` be the object returned by `new(A, perm)` (numeric or
@@ -1076,7 +1087,8 @@ logical), `ops` any sequence of `update_values / scale_values / offset_values / 
 own value array (`runA`: `A.nzval[idx] = v`, `*= s`, `±= off`) succeed with some `v`, and
 `refactor F` returns exactly what `QDLDLFactorisation::new` (numeric) returns on the matrix `A`
 with values `v`: the same error (`ZeroPivot`) or the same object in every field — `L`, `D`, `Dinv`,
-inertia, regularisation count, `triuA`, `AtoPAPt`, … .  (Composition of `update_commutes` and
+inertia, regularisation count, `triuA`, `AtoPAPt`, … .  (`0 < n` is kept here: for the empty matrix
+every history is trivial, see `empty_matrix_ok`.  Composition of `update_commutes` and
 `refactor_eq_fresh` over the history; intermediate `refactor`s leave no trace.) -/
 theorem history_refactor_eq_fresh (A : Csc α) (hw : wellFormed A = true) (hc : checkStructure A = .ok ())
     (hnd : NoDupCols A.colptr A.rowval) (hn : 0 < A.n) (perm : Array Nat) (hp : IsPerm perm)
@@ -1096,16 +1108,13 @@ of the seeded change C12-c (no `D.fill(0)`, `D[k] = Ax[i]` skipped in logical mo
 refactorisation starts from the `D = 1` left by `_factor` and the equation fails on every pattern
 with a column without stored diagonal entry. -/
 theorem logical_then_refactor_eq_fresh (A : Csc α) (hw : wellFormed A = true)
-    (hc : checkStructure A = .ok ()) (hnd : NoDupCols A.colptr A.rowval) (hn : 0 < A.n)
+    (hc : checkStructure A = .ok ()) (hnd : NoDupCols A.colptr A.rowval)
     (perm : Array Nat) (hp : IsPerm perm) (hps : perm.size = A.n) (dsigns : Option (Array Int))
     (hds : ∀ ds, dsigns = some ds → A.n ≤ ds.size) (enable : Bool) (eps delta : α)
     (FL : Factorisation α) (hL : new A perm dsigns enable eps delta true = .ok FL) :
     refactor FL = new A perm dsigns enable eps delta false := by
-  obtain ⟨v, hv, _, h⟩ := history_refactor_eq_fresh A hw hc hnd hn perm hp hps dsigns hds enable eps delta
-    true FL hL [] FL rfl
-  have : v = A.nzval := (Except.ok.inj hv).symm
-  subst this
-  exact h
+  obtain ⟨iperm, hip⟩ := (invperm_ok_iff perm).mpr hp
+  exact logical_then_refactor' A hw hc hnd perm iperm hip hps dsigns hds enable eps delta FL hL
 
 /-- [S] the canonical form demanded by `CscMatrix::check_format` (row indices strictly increasing
 inside every column) implies the hypothesis `NoDupCols` of the end-to-end theorems -/
@@ -1117,7 +1126,7 @@ theorem canonical_no_dup (Ap Ai : Array Nat)
 a matrix rejected by `check_structure` makes `new` return that error (`IncompatibleDimension`,
 `NotUpperTriangular`, `EmptyColumn`: `check_structure`); a structurally valid matrix with an
 invalid ordering makes it return `InvalidPermutation` (`invperm_rejects`).  For a valid input
-(well formed, canonical, `n > 0`, `perm` a permutation of `0 … n-1`, `Dsigns` long enough) numeric
+(well formed, canonical, `perm` a permutation of `0 … n-1`, `Dsigns` long enough; `n = 0` included) numeric
 `new` returns `ZeroPivot` or `Ok` and logical `new` returns `Ok` — no out-of-range access anywhere
 in `_invperm`, `permute_symmetric`, `permute`, `_etree`, `_factor_inner`. -/
 theorem new_errors_never_panics (A : Csc α) (perm : Array Nat) (dsigns : Option (Array Int))
@@ -1126,30 +1135,43 @@ theorem new_errors_never_panics (A : Csc α) (perm : Array Nat) (dsigns : Option
       new A perm dsigns enable eps delta logical = .error e) ∧
     (∀ logical, checkStructure A = .ok () → ¬ IsPerm perm →
       new A perm dsigns enable eps delta logical = .error Perm.invalidPermutation) ∧
-    (wellFormed A = true → checkStructure A = .ok () → NoDupCols A.colptr A.rowval → 0 < A.n →
+    (wellFormed A = true → checkStructure A = .ok () → NoDupCols A.colptr A.rowval →
       IsPerm perm → perm.size = A.n → (∀ ds, dsigns = some ds → A.n ≤ ds.size) →
       (new A perm dsigns enable eps delta false = .error errZeroPivot ∨
         ∃ F, new A perm dsigns enable eps delta false = .ok F) ∧
       ∃ F, new A perm dsigns enable eps delta true = .ok F) := by
   refine ⟨fun e lg he => (new_rejects A perm dsigns enable eps delta lg).1 e he,
     fun lg hc hp => (new_rejects A perm dsigns enable eps delta lg).2 hc _ (invperm_rejects perm hp), ?_⟩
-  intro hw hc hnd hn hp hps hds
+  intro hw hc hnd hp hps hds
   obtain ⟨iperm, hip⟩ := (invperm_ok_iff perm).mpr hp
-  exact new_total A hw hc hnd hn perm iperm hip hps dsigns hds enable eps delta
+  exact new_total' A hw hc hnd perm iperm hip hps dsigns hds enable eps delta
 
-/-- [S] **`n = 0`: the empty matrix makes `new` panic** (model statement; the implementation agrees,
-see `replays/C12/candidate-empty-matrix-panic.json`).  The only well-formed `0 × 0` CSC matrix
-passes `check_structure` (square, upper triangular, no column at all hence no empty column), the
-empty ordering is a valid permutation, and `_factor_inner` then reads `Ap[1]` of the one-entry
-`colptr`: index out of bounds.  In logical mode the read is skipped and `new` returns `Ok`.
-Not one of the error cases of the property (non-square, non-upper-triangular, empty column,
-zero pivot, invalid permutation); every other theorem of this file assumes `0 < n`. -/
-theorem empty_matrix_panics (dsigns : Option (Array Int)) (enable : Bool) (eps delta : α) :
+/-- [S] (holds at `Float`) **`n = 0`: the empty matrix is factored, not a panic.**  The only
+well-formed `0 × 0` CSC matrix passes `check_structure` (square, upper triangular, no column at all
+hence no empty column) and the empty ordering is a valid permutation; `new` returns `Ok`, numeric
+and logical, with empty `L` (`colptr = [0]`), empty `D / Dinv`, `positive_inertia = 0`,
+`regularize_count = 0`; `solve` on the empty right-hand side returns the empty vector and
+`refactor` returns `Ok`.  Documents the **repaired** defect `C12-empty-matrix-panic` (fixed in
+/repo 6c94e42, recorded as `fixed` in known_findings.json): `_factor_inner` used to go on to
+`if Ap[1] > Ap[0]` with the one-entry `colptr` of the empty matrix — index out of bounds (the
+`getE` of the `example` below), reachable through `QDLDLFactorisation::new` and through `solve()` of
+the completely empty problem with `direct_solve_method = "qdldl"`; the repaired code (and
+`factorInner`) returns right after the workspace set-up when `n == 0`.  The harness submits the
+empty matrix on every run with the oracle clause "0 × 0 ⇒ Ok, empty factors"
+(regression: `regressions/C12-empty-matrix-panic`). -/
+theorem empty_matrix_ok (dsigns : Option (Array Int)) (enable : Bool) (eps delta : α) (logical : Bool) :
     checkStructure (⟨0, 0, #[0], #[], #[]⟩ : Csc α) = .ok () ∧ Perm.invperm #[] = .ok #[] ∧
-    new (⟨0, 0, #[0], #[], #[]⟩ : Csc α) #[] none enable eps delta false =
-      .error (.panic "_factor_inner: Ap[1]") ∧
-    ∃ F, new (⟨0, 0, #[0], #[], #[]⟩ : Csc α) #[] none enable eps delta true = .ok F :=
-  ⟨rfl, rfl, rfl, _, rfl⟩
+    ∃ F, new (⟨0, 0, #[0], #[], #[]⟩ : Csc α) #[] dsigns enable eps delta logical = .ok F ∧
+      F.L.colptr = #[0] ∧ F.L.rowval = #[] ∧ F.L.nzval = #[] ∧ F.D = #[] ∧ F.Dinv = #[] ∧
+      F.positiveInertia = 0 ∧ F.regularizeCount = 0 ∧ F.isSymbolic = logical ∧
+      (logical = false → solve F #[] = .ok #[]) ∧ ∃ F', refactor F = .ok F' :=
+  ⟨rfl, rfl, emptyF enable eps delta logical, new_empty dsigns enable eps delta logical, rfl, rfl, rfl, rfl,
+    rfl, rfl, rfl, rfl, fun h => by subst h; exact solve_empty enable eps delta,
+    _, refactor_empty enable eps delta logical⟩
+
+/-- pre-fix behaviour (C12-empty-matrix-panic): the read `Ap[1]` that followed the workspace set-up
+is out of range for the `colptr = [0]` of the empty matrix -/
+example : getE (#[0] : Array Nat) 1 "_factor_inner: Ap[1]" = .error (.panic "_factor_inner: Ap[1]") := rfl
 
 end logical_and_histories
 
